@@ -9,14 +9,17 @@ class Unit:
     """One (harness binary x library build) that generates and runs cases."""
     def __init__(self, name, harness, libcfg=None, cases=1000, shards=16, max_size=100, cxx="g++",
                  hflags=(), link_flags=(), libs=("-lrapidcheck",), wrapper=(), args=(), env=None,
-                 extra_objs=(), timeout=3000, weight=1.0, crash_is_violation=True, builder=None, digest_group=None):
+                 extra_objs=(), timeout=3000, weight=1.0, crash_is_violation=True, builder=None, digest_group=None,
+                 ext_srcs=None, hdeps=None):
         self.name = name; self.harness = harness if isinstance(harness, (list, tuple)) else [harness]
         self.libcfg = libcfg; self.cases = cases; self.shards = shards; self.max_size = max_size
-        self.cxx = cxx; self.hflags = list(hflags); self.link_flags = list(link_flags); self.libs = list(libs)
+        self.cxx = cxx; self.hflags = hflags if callable(hflags) else list(hflags); self.link_flags = list(link_flags); self.libs = list(libs)
         self.wrapper = list(wrapper); self.args = args if callable(args) else list(args); self.env = env or {}
         self.extra_objs = list(extra_objs); self.timeout = timeout
         self.crash_is_violation = crash_is_violation
         self.builder = builder      # optional callable(unit, workdir) -> path of binary
+        self.ext_srcs = ext_srcs    # callable -> [(path, compiler, flags, deps)] : sources that live in the repository
+        self.hdeps = hdeps          # callable -> [paths] the harness TU depends on besides harness/ and include/
         self.digest_group = digest_group   # units of one group see identical case streams; their per-case transcript digests must agree
         self.binary = None
 
@@ -25,8 +28,13 @@ class Unit:
             self.binary = self.builder(self, work)
             return self.binary
         ccomp = "gcc" if "g++" in self.cxx else "clang"
-        objs = [skv.build_harness_obj(h, cxx=self.cxx if h.endswith(".cpp") else ccomp, flags=self.hflags)
+        hflags = self.hflags() if callable(self.hflags) else self.hflags
+        objs = [skv.build_harness_obj(h, cxx=self.cxx if h.endswith(".cpp") else ccomp, flags=hflags,
+                                      extra_deps=self.hdeps() if self.hdeps else ())
                 for h in self.harness]
+        if self.ext_srcs:
+            for (path, comp, flags, deps) in self.ext_srcs():
+                objs.append(skv.build_ext_obj(path, comp, flags, deps))
         if self.libcfg is not None:
             objs.append(skv.build_lib(self.libcfg))
         objs += self.extra_objs
